@@ -281,8 +281,16 @@ def install_seams(files: dict):
                 return sim_open(str(self)).read()
             return real_read_text(self, *a, **kw)
 
+        real_path_open = pathlib.Path.open
+
+        def path_open(self, mode="r", *a, **kw):
+            if str(self).startswith(SIM_PREFIX):
+                return sim_open(str(self), mode)
+            return real_path_open(self, mode, *a, **kw)
+
         builtins.open = b_open
         pathlib.Path.read_text = read_text
+        pathlib.Path.open = path_open
         _seams["clock"] = SimClock()
         a2g.datetime = _seams["clock"]
     return _seams["clock"]
@@ -401,7 +409,9 @@ def normalise_text(text: str) -> dict:
 
     i_intro, i_pars, i_lines = find(m_intro), find(m_pars), find(m_lines)
     if None in (i_intro, i_pars, i_lines) or not (i_intro < i_pars < i_lines):
-        return {"lang": lang, "unsectioned": lines}
+        # the generator's section markers are gone (a template change): fall back to the multiset of lines, which forgives
+        # more than the property allows but cannot raise an alarm over a reordering
+        return {"lang": lang, "unsectioned_sorted_lines": sorted(lines)}
     header, intro, pars, body = lines[:i_intro], lines[i_intro + 1 : i_pars], lines[i_pars + 1 : i_lines], lines[i_lines:]
     # header: the spin-configuration groups (an unindented 'X : SF...' head line + its indented members) are a multiset
     groups, rest, cur = [], [], None
